@@ -24,6 +24,8 @@ import (
 	"sort"
 	"strings"
 
+	hatypes "github.com/jcmoraisjr/haproxy-ingress/pkg/haproxy/types"
+
 	"verif/harness/lib/cfgnorm"
 	"verif/harness/lib/fakehaproxy"
 	"verif/harness/lib/hx"
@@ -51,6 +53,8 @@ type stepObs struct {
 	Loaded  map[string]string `json:"loaded,omitempty"`
 	Partial bool              `json:"partial"`
 	coq     string
+	dyn     string // Coq term of the kdyn record of this step ("" = none)
+	DynJS   interface{} `json:"dyn,omitempty"`
 }
 
 type runner struct {
@@ -122,6 +126,12 @@ func httpsCrtList(nf *cfgnorm.NF) []cfgnorm.CrtEntry {
 // step applies one batch and observes.
 func (r *runner) step(b []op, first bool) (*stepObs, error) {
 	before := r.p.Reloads()
+	oldHosts := map[string]*hatypes.Host{}
+	if r.fake != nil && !first {
+		for k, v := range r.p.Config().Hosts().Items() {
+			oldHosts[k] = v
+		}
+	}
 	if r.fake != nil {
 		r.fake.Begin(nil)
 	}
@@ -157,6 +167,9 @@ func (r *runner) step(b []op, first bool) (*stepObs, error) {
 			if err := r.fake.Reload(); err != nil {
 				return nil, fmt.Errorf("simulated reload: %v", err)
 			}
+		}
+		if !first && len(b) > 0 && onlySecrets(b) && len(r.p.Last.Runs) == 1 {
+			o.dyn, o.DynJS = coqDyn(oldHosts, r.p.Config().Hosts().Items(), o.Reloads > 0, ex)
 		}
 		o.Running = selection(r.fake.St)
 		loaded, err := fakehaproxy.LoadDir(r.fake.CfgDir)
@@ -437,10 +450,7 @@ func main() {
 		}
 		nCorr := o.Count(170, 2500)
 		nWide := o.Count(60, 1500)
-		nSock := 0
-		if o.Thorough() {
-			nSock = 400
-		}
+		nSock := o.Count(30, 600)
 		if o.Search {
 			nCorr, nWide, nSock = o.Count(1500, 6000), o.Count(500, 2000), 200
 		}
@@ -455,7 +465,7 @@ func main() {
 			jobs = append(jobs, job{in: in})
 		}
 		for i := 0; i < nSock; i++ {
-			jobs = append(jobs, job{in: input{History: genHistory(rng, genCfg{foreign: true}, 1+rng.Intn(4)), Socket: true}})
+			jobs = append(jobs, job{in: input{History: genHistory(rng, genCfg{foreign: true}, 1+rng.Intn(4)), Socket: true}, corr: !o.Search})
 		}
 	}
 
@@ -463,7 +473,7 @@ func main() {
 	for ji, j := range jobs {
 		in := j.in
 		canon, _ := json.Marshal(in)
-		fails, obs, err := check(in, res, true, j.corr && !in.Socket && in.DefaultSecret == "")
+		fails, obs, err := check(in, res, true, j.corr && in.DefaultSecret == "")
 		if err != nil {
 			res.Count("harness_error")
 			res.Fail(hx.Failure{Key: "C15/update-error", What: "running the history failed: " + err.Error(), Input: in})
@@ -526,7 +536,7 @@ func main() {
 			}
 			res.Fail(hx.Failure{Key: f.key, What: f.what + " -- " + strings.Join(describe(m.History), " / "), Input: m, Observed: f.observed, Expected: f.expected})
 		}
-		if j.corr && !in.Socket && in.DefaultSecret == "" {
+		if j.corr && in.DefaultSecret == "" {
 			emitCase(cw, res, in, obs)
 		}
 	}
